@@ -44,6 +44,9 @@ def cases(tier, seed):
                         "kernel": kern, "mean": rnd.choice(["zero", "constant", "linear"]), "lik": lik, "n": rnd.choice([1, 2, 5, 9]), "d": rnd.choice([1, 2]),
                         "batch": b, "priors": rnd.choice(["none", "independent", "shared", "independent"]), "objective": obj,
                         "path": rnd.choice(["cholesky", "default", "default"]), "seed": rnd.randrange(10**6),
+                        # how the priors were registered (closure / parameter name) and whether the objective is evaluated on
+                        # the model itself or on a deep copy whose hyper-parameters have moved since
+                        "reg": rnd.choice(["closure", "name"]), "copy": rnd.choice([False, False, True]),
                     }
         for t, rank in ((2, 0), (3, 1), (2, 2)):
             yield {"kernel": KERNELS[rep % 2], "lik": "mt", "t": t, "rank": rank, "n": rnd.choice([1, 4]), "d": 1, "batch": [], "priors": rnd.choice(["none", "independent"]),
@@ -103,7 +106,7 @@ def _targets(model):
     return out
 
 
-def attach_priors(model, mode, g):
+def attach_priors(model, mode, g, reg="closure"):
     """registers priors through the public register_prior; returns the reference list [(module, attr, logpdf)]"""
     import torch
 
@@ -124,7 +127,7 @@ def attach_priors(model, mode, g):
             prior, logpdf = shared
         else:
             prior = make()
-        mod.register_prior(f"vf_{attr}_prior", prior, (lambda a: (lambda m: getattr(m, a)))(attr))
+        mod.register_prior(f"vf_{attr}_prior", prior, attr if reg == "name" else (lambda a: (lambda m: getattr(m, a)))(attr))
         ref.append((mod, attr, logpdf))
     return ref
 
@@ -203,7 +206,20 @@ def run_case(case, ctx):
         return _sum_mll(case, ctx, g)
     model, lik, X, y = _build(case, g)
     mt = case["lik"] == "mt"
-    ref_priors = attach_priors(model, case["priors"], g)
+    ref_priors = attach_priors(model, case["priors"], g, case.get("reg", "closure"))
+    if case.get("copy"):
+        import copy
+
+        names = {id(mod): name for name, mod in model.named_modules()}
+        paths = [names[id(mod)] for mod, _, _ in ref_priors]
+        model = copy.deepcopy(model)
+        lik = model.likelihood
+        util.randomize(model, util.gen(case["seed"] + 77), 0.5)
+        if hasattr(lik, "noise_covar") and hasattr(lik.noise_covar, "noise") and case["lik"] in ("fixed", "fixed+learn"):
+            pass  # the fixed noise is a buffer, untouched by randomize
+        byname = dict(model.named_modules())
+        ref_priors = [(byname[p_], attr, logpdf) for p_, (_, attr, logpdf) in zip(paths, ref_priors)]
+        X, y = model.train_inputs[0], model.train_targets
     model.train()
     lik.train()
     n_enum = len(list(model.named_priors()))
